@@ -816,7 +816,8 @@ func NoStoreBetween(first, second ssa.Value) bool {
 		if !r1.Found {
 			return
 		}
-		r2 := ReachAvoiding(fn, i, func(j ssa.Instruction) bool { return j == ssa.Instruction(u2) }, nil, nil)
+		// ... and then reach the second load without re-executing the first one (which would re-establish the fact)
+		r2 := ReachAvoiding(fn, i, func(j ssa.Instruction) bool { return j == ssa.Instruction(u2) }, func(j ssa.Instruction) bool { return j == ssa.Instruction(u1) }, nil)
 		if r2.Found {
 			dirty = true
 		}
